@@ -134,7 +134,64 @@ type C7Call struct {
 	Avail []bool
 }
 
+// C7Buf is a list binding whose backing array the caller REUSES between the
+// calls of one history (each call with its own context): the call overwrites
+// the history's buffer for that variable with Content and binds it; in
+// isolation it binds a fresh copy.
+type C7Buf struct{ Content interface{} }
+
+var c7keep []interface{} // isolated copies stay reachable so that no address is ever reused
+
+// c7resolve: bufs == nil means isolation; otherwise bufs holds the history's
+// buffers per variable index (allocated on first use).
+func c7resolve(vals []interface{}, bufs map[int]interface{}) []interface{} {
+	out := make([]interface{}, len(vals))
+	for i, v := range vals {
+		b, ok := v.(C7Buf)
+		if !ok {
+			out[i] = v
+			continue
+		}
+		switch c := b.Content.(type) {
+		case []int64:
+			var dst []int64
+			if bufs == nil {
+				dst = make([]int64, len(c))
+				c7keepMu.Lock()
+				c7keep = append(c7keep, dst)
+				c7keepMu.Unlock()
+			} else if x, ok := bufs[i]; ok {
+				dst = x.([]int64)
+			} else {
+				dst = make([]int64, len(c))
+				bufs[i] = dst
+			}
+			copy(dst, c)
+			out[i] = dst
+		case []string:
+			var dst []string
+			if bufs == nil {
+				dst = make([]string, len(c))
+				c7keepMu.Lock()
+				c7keep = append(c7keep, dst)
+				c7keepMu.Unlock()
+			} else if x, ok := bufs[i]; ok {
+				dst = x.([]string)
+			} else {
+				dst = make([]string, len(c))
+				bufs[i] = dst
+			}
+			copy(dst, c)
+			out[i] = dst
+		}
+	}
+	return out
+}
+
+var c7keepMu sync.Mutex
+
 type C7Prog struct {
+	SeqOnly bool // the calls share a caller-side buffer: sequential histories only
 	Light bool // many scheduling points per call: explore pairs only, smaller preemption bound
 	Name  string
 	Src   string
@@ -231,6 +288,39 @@ func C07Corpus() []*C7Prog {
 		{Name: "strings-fast", Src: "(if (= s0 \"s\") (q b1 b2) (h b1 b2 b3))", Vars: c7vars("s0", "b1", "b2", "b3"), Opt: ev(allOn, 1),
 			Calls: []C7Call{evalc("Eval#s", "s", true, false, true), evalc("Eval#t", "t", true, false, true), tryc("TryEval#b2-unavailable", []bool{true, true, false, true}, "t", true, true, true), insp[1]}},
 	}
+	// caller-side buffer reuse: the same backing array bound to a list variable
+	// in successive calls with different contents (lengths around the engine's
+	// large-list thresholds)
+	for _, n := range []int{3, 64, 100, 130} {
+		mkI := func(base int) []int64 {
+			o := make([]int64, n)
+			for i := range o {
+				o[i] = int64(base + i*3)
+			}
+			return o
+		}
+		mkS := func(base int) []string {
+			o := make([]string, n)
+			for i := range o {
+				o[i] = fmt.Sprint("k", base+i*3)
+			}
+			return o
+		}
+		bi := func(base int) C7Buf { return C7Buf{Content: mkI(base)} }
+		bs := func(base int) C7Buf { return C7Buf{Content: mkS(base)} }
+		for oi, o := range []drive.Opt{off, allOn} {
+			ps = append(ps, &C7Prog{SeqOnly: true, Name: fmt.Sprintf("reused-list-buffer-%d-%d", n, oi),
+				Src:  "(if (in n0 l1) (if (overlap l1 (1000 7 2000)) 1 2) (if (in s2 ls3) (if (overlap ls3 (\"k7\" \"zz\")) 3 4) 5))",
+				Vars: []term.VarDecl{{Name: "n0", Ty: term.TI}, {Name: "l1", Ty: term.TIL}, {Name: "s2", Ty: term.TS}, {Name: "ls3", Ty: term.TSL}}, Opt: o,
+				Calls: []C7Call{
+					evalc("Eval#a", int64(1000), bi(1000), "k1", bs(1)),
+					evalc("Eval#b", int64(1000), bi(1), "k1", bs(1000)),
+					evalc("Eval#c", int64(7), bi(1), "k7", bs(1)),
+					evalc("Eval#d", int64(5), bi(1000), "k1000", bs(1000)),
+					tryc("TryEval#e", nil, int64(4), bi(1), "k1003", bs(1000)),
+				}})
+		}
+	}
 	return ps
 }
 
@@ -267,7 +357,21 @@ func C7Compile(p *C7Prog) (*eval.Expr, error) {
 }
 
 // C7Do performs one call and returns its canonical outcome text.
-func C7Do(e *eval.Expr, p *C7Prog, c C7Call, point func(string)) (out string) {
+func C7Do(e *eval.Expr, p *C7Prog, c C7Call, point func(string)) string {
+	return c7do(e, p, c, point, map[int]interface{}{})
+}
+
+// C7DoHist performs one call of a sequential history whose caller-side
+// buffers are bufs.
+func C7DoHist(e *eval.Expr, p *C7Prog, c C7Call, bufs map[int]interface{}) string {
+	return c7do(e, p, c, nil, bufs)
+}
+
+// C7DoIso performs the call in isolation: nothing of the caller's side is
+// shared with any other call either.
+func C7DoIso(e *eval.Expr, p *C7Prog, c C7Call) string { return c7do(e, p, c, nil, nil) }
+
+func c7do(e *eval.Expr, p *C7Prog, c C7Call, point func(string), bufs map[int]interface{}) (out string) {
 	defer func() {
 		if r := recover(); r != nil {
 			out = fmt.Sprintf("PANIC(%v)", r)
@@ -281,7 +385,7 @@ func C7Do(e *eval.Expr, p *C7Prog, c C7Call, point func(string)) (out string) {
 	case "tableall":
 		return eval.DumpTable(e, false)
 	}
-	f := &c7f{idx: map[string]int{}, vals: c.Vals, avail: c.Avail, point: point, expr: e}
+	f := &c7f{idx: map[string]int{}, vals: c7resolve(c.Vals, bufs), avail: c.Avail, point: point, expr: e}
 	for i, v := range p.Vars {
 		f.idx[v.Name] = i
 	}
@@ -327,7 +431,7 @@ func c07(r *rep.Run) {
 		depth, bound2, bound3 = 5, 5, 3
 		r.SetBudget(1800e9)
 	}
-	r.Rule = "one shared compiled Expr per corpus program (13 programs covering a re-entrant operator that evaluates its own expression, n-ary/binary/fast operators, cond, short-circuit chains, stack classes 8/16/large, large-list builtins, failures; events off/ReportEvent/Debug). (1) every sequential history of calls {Eval x bindings, TryEval x splits, Dump, DumpTable(skip/all)} up to the depth bound; (2) every interleaving of 2 threads x 1 call (all ordered pairs of evaluation calls), 2 threads x 2 calls and 3 threads x 1 call (all triples), each up to the stated preemption bound (iterative context bounding; executions always run to completion) under a cooperative scheduler whose points are the fetcher's Get/Cached, registered-operator entry, and call begin/end. Invariant after every call: the public view of the program (Dump + full DumpTable) is unchanged (changes of the reflective deep hash of the Expr are counted and reported, not judged: scratch state may live there); oracle per call: outcome (value, error, ordered fetch/operator trace, argument-buffer stability across a yield) equals the outcome of the same call in isolation on a freshly compiled program. (3) auxiliary: the same call menus free-running under the Go race detector. non-trivial = schedules with at least one context switch inside a call"
+	r.Rule = "one shared compiled Expr per corpus program (13 programs + 8 sequential-only programs whose list bindings reuse one caller-side buffer with changing contents, lengths 3/64/100/130; covering a re-entrant operator that evaluates its own expression, n-ary/binary/fast operators, cond, short-circuit chains, stack classes 8/16/large, large-list builtins, failures; events off/ReportEvent/Debug). (1) every sequential history of calls {Eval x bindings, TryEval x splits, Dump, DumpTable(skip/all)} up to the depth bound; (2) every interleaving of 2 threads x 1 call (all ordered pairs of evaluation calls), 2 threads x 2 calls and 3 threads x 1 call (all triples), each up to the stated preemption bound (iterative context bounding; executions always run to completion) under a cooperative scheduler whose points are the fetcher's Get/Cached, registered-operator entry, and call begin/end. Invariant after every call: the public view of the program (Dump + full DumpTable) is unchanged (changes of the reflective deep hash of the Expr are counted and reported, not judged: scratch state may live there); oracle per call: outcome (value, error, ordered fetch/operator trace, argument-buffer stability across a yield) equals the outcome of the same call in isolation on a freshly compiled program. (3) auxiliary: the same call menus free-running under the Go race detector. non-trivial = schedules with at least one context switch inside a call"
 	r.Assume = []string{"scheduling granularity is the environment callback (fetcher, registered operator), not the machine instruction; state shared between calls with no callback in between is caught by the deep-dump invariant and the race pass only",
 		"weak-memory effects are outside a cooperative scheduler (race detector pass is the backstop)"}
 	progs := C07Corpus()
@@ -343,7 +447,7 @@ func c07(r *rep.Run) {
 				r.Violate("compile", p.Name, sprintf("corpus program %s does not compile: %v", p.Name, err), map[string]interface{}{"source": p.Src})
 				r.Finish()
 			}
-			iso[pi][ci] = C7Do(e, p, c, nil)
+			iso[pi][ci] = C7DoIso(e, p, c)
 			outcomes[iso[pi][ci]] = true
 		}
 	}
@@ -368,9 +472,10 @@ func c07(r *rep.Run) {
 			e, _ := C7Compile(p)
 			base := drive.DeepHash(e)
 			text := c7text(e)
+			bufs := map[int]interface{}{}
 			for s := 0; s < k; s++ {
 				c := p.Calls[hist[s]]
-				got := C7Do(e, p, c, nil)
+				got := C7DoHist(e, p, c, bufs)
 				c7drain(e)
 				nc++
 				if got != iso[jobs[j].pi][hist[s]] {
@@ -428,6 +533,9 @@ func c07(r *rep.Run) {
 			if c.Kind == "eval" || c.Kind == "tryeval" {
 				evs = append(evs, ci)
 			}
+		}
+		if p.SeqOnly {
+			continue
 		}
 		if p.Light {
 			for _, a := range evs {
